@@ -24,12 +24,16 @@ def canonB (S : Schema) : List DNode → Bool
   | [] => true
   | x :: xs => xs.all (klt S x) && canonB S xs
 
+/-- the schema ids of the keys of list `s`: its first `nkeys` children in the pre-order table (keys are leaves) -/
+def keySids (S : Schema) (s : Nat) : List Nat := (List.range (S.nkeys s)).map (· + (s + 1))
+
 mutual
 def wfNode (S : Schema) : DNode → Bool
   | .inner s f m ks =>
     plainSid S s && S.isInner s && m.isEmpty && !f.new && !f.whenTrue && (!f.dflt || S.isNpCont s) && !S.isKey s
       && (noKeys S ks).all (fun c => !S.isKey c.sid) && (keysOf S ks).all (fun k => k.isTerm && !k.flags.dflt)
       && (S.isKind s .list || (keysOf S ks).isEmpty)
+      && (!S.isKind s .list || (keysOf S ks).map (·.sid) == keySids S s)
       && canonB S ks && wfL S ks
   | .term s f m _ => plainSid S s && S.isTerm s && m.isEmpty && !f.new && !f.whenTrue
 def wfL (S : Schema) : List DNode → Bool
@@ -51,5 +55,22 @@ def normL (S : Schema) : List DNode → List DNode
   | [] => []
   | n :: ns => normNode S n :: normL S ns
 end
+
+mutual
+/-- a node and all its descendants -/
+def subnodes : DNode → List DNode
+  | .inner s f m ks => .inner s f m ks :: subnodesL ks
+  | .term s f m v => [.term s f m v]
+def subnodesL : List DNode → List DNode
+  | [] => []
+  | n :: ns => subnodes n ++ subnodesL ns
+end
+
+/-- The one thing the proof asks of the values: two instances of a system-ordered list / leaf-list that the type's `sort`
+callback cannot tell apart are the same instance for `lyd_compare_single`.  True for canonical values of the S1 types (the
+integer order is the order of the canonical decimal strings' numbers, …); it is what finding F28 (date-and-time) violates. -/
+def KeysDistinguished (S : Schema) (F : List DNode) : Prop :=
+  ∀ x y, x ∈ subnodesL F → y ∈ subnodesL F → x.sid = y.sid → S.isSorted x.sid = true → cmpInst S x y = .eq →
+    keysOf S x.kids = keysOf S y.kids ∧ x.val = y.val
 
 end LyModel.Diff
